@@ -64,7 +64,7 @@ def run(ctx):
     pname = gnp.local_name(2) or "edge_probability"
     want = {(">", 0.0), ("<", 1.0)}
     work = [t for t in gnp.calls() if t.callee and t.callee.target_path(prog) in (kd.path, ku.path, prog.one("random::get_random_number_generator").path)]
-    if not ctx.floor("R-C16-1", "guarded_calls", len(work), 3):
+    if not ctx.floor("R-C16-1", "guarded_calls", len(work), 2):
         return
     for t in work:
         cons = set()
